@@ -890,7 +890,10 @@ def make(kind, seed, world, ip, tap, reach):
                         else:
                             p['transforms'] = [t for t in p['transforms'] if t['type'] != R.T_INTEG] or p['transforms']
                     p['num'] = i + 1
-                    p['spi'] = good['spi']          # one initiator, one inbound SPI, whichever proposal is taken
+                    p['spi'] = good['spi']          # one initiator, one inbound SPI, whichever proposal is taken ...
+                    if i != pos and how in ('foreign', 'wrong_proto', 'no_integ') and r.random() < 0.6:
+                        # ... except in proposals no conforming responder can take (RFC 7296 3.3.1: every proposal carries its own SPI)
+                        p['spi'] = _rb(r, len(good['spi']))
                     props.append(p)
                 sa['proposals'] = props
             else:
